@@ -262,6 +262,19 @@ def eraseAllBackward (g : Grid) (attrs : Attrs) : M Grid := do
 def eraseRow (g : Grid) (attrs : Attrs) : M Grid :=
   g.modifyCurrentRow (fun r => pure (r.clear attrs))
 
+/-- one iteration of the loop of `insert_cells`: `wide` = the cursor is on a continuation cell,
+whose flag is handed over to the inserted blank -/
+def insertStep (wide : Bool) (col : Nat) (row : Row) : M Row := do
+  let row ← if wide then do
+      let cs ← modifyM 422 row.cells col (fun c => pure (c.setWideContinuation false))
+      pure { row with cells := cs }
+    else pure row
+  let row ← row.insert col Cell.new
+  if wide then do
+    let cs ← modifyM 423 row.cells col (fun c => pure (c.setWideContinuation true))
+    pure { row with cells := cs }
+  else pure row
+
 def insertCells (g : Grid) (count : Nat) : M Grid := do
   let size := g.size
   let pos := g.pos
@@ -270,16 +283,7 @@ def insertCells (g : Grid) (count : Nat) : M Grid := do
       pure c.isWideContinuation
     else pure false
   g.modifyCurrentRow (fun row => do
-    let row ← iterateM (min count size.cols) (fun row => do
-      let row ← if wide then do
-          let cs ← modifyM 422 row.cells pos.col (fun c => pure (c.setWideContinuation false))
-          pure { row with cells := cs }
-        else pure row
-      let row ← row.insert pos.col Cell.new
-      if wide then do
-        let cs ← modifyM 423 row.cells pos.col (fun c => pure (c.setWideContinuation true))
-        pure { row with cells := cs }
-      else pure row) row
+    let row ← iterateM (min count size.cols) (insertStep wide pos.col) row
     row.truncate size.cols)
 
 def deleteCells (g : Grid) (count : Nat) : M Grid := do
